@@ -75,7 +75,12 @@ impl ClientDialogBuilder {
         &mut self,
         response: &TsxResponse,
     ) -> Result<Dialog, HeaderError> {
-        assert_eq!(response.line.code.kind(), CodeKind::Success);
+        // (early) dialogs are created by 101..=299 responses which contain a To-tag
+        assert!(matches!(
+            response.line.code.kind(),
+            CodeKind::Provisional | CodeKind::Success
+        ));
+        assert!(response.line.code.into_u16() > 100);
         assert!(response.base_headers.to.tag.is_some());
 
         // The route set of a dialog created by a UAC is the Record-Route list in reverse order
